@@ -1,6 +1,7 @@
 from . import COMMON_TB
 
 CONFIG = dict(
+    also_release=True,
     harness="c18",
     comparisons=[
         dict(name="model", code=1800, kind="eq"),
